@@ -645,6 +645,9 @@ def _shrink(case, idx, bad_key):
 def _eval(item):
     """worker: run one case against the real stack, judge it, shrink a failing one"""
     label, case = item
+    if case.get("kind"):
+        from lib import c11x
+        return c11x.evaluate(label, case)
     res = run_case(case)
     j = judge(res, case)
     if j is not None:
@@ -658,6 +661,8 @@ def _eval(item):
 
 
 def book(ctx, label, case, res, j):
+    if case.get("kind"):
+        return book_x(ctx, label, case, res, j)
     ctx.ev()
     ctx.kind("case:" + label)
     for o in res["obs"]:
@@ -676,8 +681,37 @@ def book(ctx, label, case, res, j):
     return True
 
 
+def book_x(ctx, label, case, res, j):
+    ctx.ev()
+    ctx.kind("case:" + label)
+    for o in res.get("obs", []):
+        ctx.kind("out:" + o["out"], "req:" + o["req_cls"], "resp:" + o.get("resp_cls", "none"))
+    ctx.kind("end:" + res["end"].split(":")[0])
+    ctx.nontrivial(json.dumps(case, sort_keys=True, default=str))
+    ctx.traces_validated += 1
+    if j is not None:
+        key, text, _ = j
+        if case["kind"] == "multi":
+            what = "scan_result rows differ from the exchanges on the wire (several producers): " + text
+            impl = {"rows": res["rows"], "events": res["events"], "warnings": res["warnings"][:5], "end": res["end"]}
+            model = {"calls": res["calls"]}
+            site = "ECU._request / UDSClient._request (mutex) / DBHandler._executor_func"
+        else:
+            what = "tables of the scan database after disconnect(): " + text
+            impl = {"tables": res["tables"], "refused": res["refused"], "warnings": res["warnings"][:5], "end": res["end"]}
+            model = {"accepted": res.get("accepted")}
+            site = "DBHandler (insert_* / _executor_func / disconnect)"
+        ctx.disagree("c11:" + key, what, case, impl=impl, model=model, spec_violated=True, site=site)
+        return False
+    return True
+
+
 def compare_model(ctx, pending):
     """pending: list of (case, res) that satisfied the property; the model must leave the same rows"""
+    from lib import c11x
+    c11x.compare_multi(ctx, [(c, r) for (c, r) in pending if c.get("kind") == "multi"])
+    c11x.compare_tables(ctx, [(c, r) for (c, r) in pending if c.get("kind") == "tables"])
+    pending = [(c, r) for (c, r) in pending if not c.get("kind")]
     batch, index = [], []
     for case, res in pending:
         ls, n_done = model_lines(case, res, ctx.rng)
@@ -860,6 +894,10 @@ def gen_cases(ctx):
     K = env["K"]
     rng = ctx.rng
     cases = []
+    # 0. several producers behind the client mutex, write faults, the other tables (harness/lib/c11x.py)
+    from lib import c11x
+    cases += c11x.gen_multi(ctx, K)
+    cases += c11x.gen_tables(ctx)
     # 1. every kind x every outcome class, alone (exhaustive over the two tables)
     for ki in range(len(K)):
         for oc in OUTCOMES:
@@ -967,6 +1005,13 @@ def run(ctx):
 
 def replay(ctx, rec):
     case = rec.get("case") or rec
+    if case.get("kind") in ("multi", "tables"):
+        from lib import c11x
+        _env()
+        res = c11x.run_case(case)
+        j = c11x.judge(res, case)
+        print(json.dumps({k: v for k, v in res.items() if k not in ("obs",)} | {"verdict": j}, indent=1, default=str))
+        return 1 if j is not None else 0
     if "plans" not in case:
         print(json.dumps(rec, indent=1))
         return 0
